@@ -27,6 +27,7 @@ structure FSt where
   gitRev : Nat
   active : Bool
   stale : Bool                      -- the revision changed and `clear()` has not run yet
+  archive : Bool                    -- `farm.ARCHIVE`: new data arrived since the last archive
   workers : List Nat                -- `_workers`: registered idle connections, in order
   cluster : List Msg                -- `_cluster`: task messages not yet handed out
   busy : List (Name × Target)       -- `_busy`
@@ -37,7 +38,7 @@ structure FSt where
   enq : List Msg                    -- ghost: every task message ever queued, oldest first
 
 def FSt.init (rev : Nat) : FSt :=
-  { gitRev := rev, active := false, stale := false, workers := [], cluster := [], busy := [],
+  { gitRev := rev, active := false, stale := false, archive := false, workers := [], cluster := [], busy := [],
     regRev := fun _ => none, conn := fun _ => true, holds := fun _ => none, log := [], enq := [] }
 
 def setF {β : Type} (f : Nat → β) (w : Nat) (v : β) : Nat → β := fun u => if u = w then v else f u
@@ -82,13 +83,20 @@ def notifyAll (s : FSt) : FSt :=
              conn := fun u => if u ∈ s.workers then false else s.conn u
              workers := [] }
 
+/-- the idle check of `dispatch`: with `ARCHIVE` armed and nothing released, queued or busy, the
+    tick fires `fsm.archiving_trigger()`, after which the pipeline is no longer active -/
+def preArchive (s : FSt) (new : List Msg) : FSt :=
+  if s.archive = true ∧ new = [] ∧ s.busy = [] ∧ s.cluster = [] then { s with active := false } else s
+
+/-- the rest of the tick: queue the new messages, sort, hand out, notify -/
+def dispatchCore (s : FSt) (new : List Msg) : FSt :=
+  notifyAll (assign s.workers (sortCluster (s.cluster ++ new))
+    { s with cluster := sortCluster (s.cluster ++ new), enq := s.enq ++ new })
+
 /-- `farm.dispatch()` from the farm's point of view; `new` are the task messages the scheduler
     part of the same call produced (`_put`) -/
 def dispatch (s : FSt) (new : List Msg) : FSt :=
-  if s.active = false then s
-  else
-    let c := sortCluster (s.cluster ++ new)
-    notifyAll (assign s.workers c { s with cluster := c, enq := s.enq ++ new })
+  if s.active = false then s else dispatchCore (preArchive s new) new
 
 /-- crew bookkeeping of `Hand._res` -/
 def reply (s : FSt) (x : Name) (t : Target) : FSt :=
@@ -107,6 +115,7 @@ inductive FOp where
   | setRev (r : Nat)
   | clear
   | setActive (b : Bool)
+  | setArchive (b : Bool)
 deriving Repr
 
 def step (s : FSt) : FOp → FSt
@@ -119,6 +128,7 @@ def step (s : FSt) : FOp → FSt
   | .setRev r => { s with gitRev := r, stale := true }
   | .clear => clear s
   | .setActive b => { s with active := b }
+  | .setArchive b => { s with archive := b }
 
 def run (s : FSt) (ops : List FOp) : FSt := ops.foldl step s
 
